@@ -8,7 +8,7 @@ From Coq Require Import ZArith List Bool Arith Lia.
 From SP Require Import Base.Sat Base.Bits Core.CnfModel Core.Card Core.CnfProofs Core.CardProofs.
 From SP Require Import Design.Flat Design.Layout Design.Sem.
 From SP Require Import Encode.Compile Encode.CodeSem Encode.Generic Encode.Blocks Encode.Runs
-     Encode.GridLemmas Encode.CrossChunks Encode.LayoutF1 Encode.F1Kinds Encode.F1Cross Encode.F1Deriv
+     Encode.GridLemmas Encode.CrossChunks Encode.LayoutF1 Encode.F1Kinds Encode.F1Cross Encode.F1Deriv Encode.F1DerivC
      Encode.F1InARow Encode.F1Sequential Encode.CompileProofs Encode.CompileCorollaries.
 From SP Require Sample.Decode Sample.DecodeProofs Design.LayoutWf Sample.DecodeWf.
 Import ListNotations.
@@ -28,12 +28,13 @@ Lemma one_crossing_total i c fresh :
   crossing_f1 fb i c = true -> exists ct, apply_one_crossing fb i c fresh = COk ct.
 Proof.
   intros Hcf. pose proof (crossing_f1_factors fb i c Hcf) as Hc.
+  destruct (crossing_f1_starts fb i c Hcf) as [Hpre _].
   unfold crossing_f1 in Hcf. rewrite !andb_true_iff in Hcf. destruct Hcf as [[[_ Hsize] _] _].
   apply Nat.ltb_lt in Hsize.
-  unfold apply_one_crossing. rewrite (f1_preamble fb HF1 i). cbn [Nat.add]. rewrite Nat.sub_0_r.
+  unfold apply_one_crossing. set (pre := preamble_size fb i) in *.
   set (combos := trial_combinations_of fb c).
-  set (rows := map (fun t => map (fun di => map (gv fb (t - 1)) di) combos) (seq 1 (T fb))).
-  assert (Eenc : cmapM (fun t => cmapM (fun di => encode_combination fb di t) combos) (seq 1 (T fb)) = COk rows).
+  set (rows := map (fun t => map (fun di => map (gv fb (t - 1)) di) combos) (seq (1 + pre) (T fb - pre))).
+  assert (Eenc : cmapM (fun t => cmapM (fun di => encode_combination fb di t) combos) (seq (1 + pre) (T fb - pre)) = COk rows).
   { unfold rows. apply cmapM_ok. intros t _. apply cmapM_ok. intros di Hdi. apply (encode_combo fb HF1 HT c); [exact Hc|].
     unfold combos, trial_combinations_of in Hdi. apply filter_In in Hdi. apply Hdi. }
   rewrite Eenc. cbn [cbind].
@@ -44,7 +45,7 @@ Proof.
               (fun p : list Z * nat => add_weight_constraint (S (length (fst p))) (fst p) (snd p)
                                          (nth i (fl_sizes fb) 0 * crossing_weight fb c) (crossing_weight fb c))
               (combine (map (fun j => map (fun t => (fresh + zn (t * length (hd [] rows) + j))%Z)
-                                          (seq 0 (length (seq 1 (T fb))))) (seq 0 (length (hd [] rows))))
+                                          (seq 0 (length (seq (1 + pre) (T fb - pre))))) (seq 0 (length (hd [] rows))))
                        (map (fun di => combination_weight fb di * sustain_of fb (hd 0 c)) combos)))
     as [reqss Er].
   { intros p _. apply awc_total; [exact Hsize|lia]. }
@@ -69,41 +70,47 @@ Proof.
   - (* Cross *) exact (crossings_total _ 0 fresh (f1_crossings fb Facts)).
   - (* Consistency *) rewrite (f1_consistency fb HF1 fresh). eexists. reflexivity.
   - (* Derivation *)
-    destruct (deriv_shape fb HF1 HT _ _ _ Hin) as (fd & w & l & lv & Efd & Ew & Elv & Hf & Hl & Hd & Hdeps & Hlt & Hent).
-    assert (Hdv : derived_idx < vpt fb) by (pose proof (f1_off_vpt fb HF1 factor Hf); lia).
-    unfold apply_derivation. replace (derived_idx <? grid_variables fb) with true.
-    2:{ symmetry. apply Nat.ltb_lt. rewrite (f1_grid fb). nia. }
-    unfold deriv_simple. replace (existsb (existsb is_before) deps) with false.
-    2:{ symmetry. apply not_true_is_false. intros Hex. apply existsb_exists in Hex. destruct Hex as (e & He & Hex).
-        apply existsb_exists in Hex. destruct Hex as (x & Hx & Hb).
-        rewrite Hdeps in He. apply in_map_iff in He. destruct He as (entry & <- & Hentry).
-        destruct (entry_deps_idx fb HF1 HT (win_deps w) entry x) as (ix & -> & _); [|exact (proj1 (Forall_forall _ _) Hent entry Hentry)|exact Hx|discriminate].
-        eapply Forall_impl; [|exact Hlt]. intros dd Hdd. cbv beta in Hdd. lia. }
-    rewrite andb_false_r. destruct (cnf_fn _ _) as [cls fresh']. eexists. reflexivity.
+    destruct (is_complex fb factor) eqn:Hcx.
+    + destruct (derivc_formulas_eq fb HF1 HT _ _ _ Hin Hcx) as (fd & w & l & lv & Efd & Ew & Elv & Hf & Hc' & Hl & Hdd & Hd & He & L & EF).
+      unfold apply_derivation. replace (derived_idx <? grid_variables fb) with false.
+      2:{ symmetry. apply Nat.ltb_ge. rewrite (f1_grid fb). lia. }
+      unfold deriv_complex. change (factor_at fb factor) with (nth_error (fl_design fb) factor). rewrite Efd, Ew.
+      rewrite (f1_sustain fb Facts factor) in *. cbn [Nat.eqb]. rewrite L. cbn [cbind].
+      destruct (cnf_fn _ _) as [cls fresh']. eexists. reflexivity.
+    + destruct (deriv_shape fb HF1 HT _ _ _ Hin Hcx) as (fd & w & l & lv & Efd & Ew & Elv & Hf & Hl & Hd & Hdeps & Hlt & Hent).
+      assert (Hdv : derived_idx < vpt fb) by (pose proof (f1_off_vpt fb HF1 factor (proj2 (sact_split fb factor) (conj Hf Hcx))); lia).
+      unfold apply_derivation. replace (derived_idx <? grid_variables fb) with true.
+      2:{ symmetry. apply Nat.ltb_lt. rewrite (f1_grid fb). unfold GN. nia. }
+      unfold deriv_simple. replace (existsb (existsb is_before) deps) with false.
+      2:{ symmetry. apply not_true_is_false. intros Hex. apply existsb_exists in Hex. destruct Hex as (e & He & Hex).
+          apply existsb_exists in Hex. destruct Hex as (x & Hx & Hb).
+          rewrite Hdeps in He. apply in_map_iff in He. destruct He as (entry & <- & Hentry).
+          destruct (entry_deps_idx fb HF1 HT (win_deps w) entry x) as (ix & -> & _); [exact Hlt|exact (proj1 (Forall_forall _ _) Hent entry Hentry)|exact Hx|discriminate]. }
+      rewrite andb_false_r. destruct (cnf_fn _ _) as [cls fresh']. eexists. reflexivity.
   - (* AtMost *)
-    cbn [constraint_f1] in Hc. rewrite !andb_true_iff in Hc. destruct Hc as [[Hf Hl] Hg].
-    apply Nat.ltb_lt in Hl. destruct (geom_ok_some fb wb Hg) as [rs Ers].
-    unfold apply_atmost, sublistss. rewrite (f1_var_lists fb HF1 f l wb rs Hf Hl Ers). cbn [cbind]. eexists. reflexivity.
-  - (* AtLeastKInARow *) exact (atleast_total fb HF1 _ _ _ _ fresh Hc).
-  - (* ExactlyK *)
     cbn [constraint_f1] in Hc. rewrite !andb_true_iff in Hc. destruct Hc as [[[Hf Hl] Hg] _].
     apply Nat.ltb_lt in Hl. destruct (geom_ok_some fb wb Hg) as [rs Ers].
-    unfold apply_exactlyk. rewrite (f1_var_lists fb HF1 f l wb rs Hf Hl Ers). cbn [cbind]. eexists. reflexivity.
-  - (* ExactlyKInARow *) exact (exactrow_total fb HF1 _ _ _ _ fresh Hc).
+    unfold apply_atmost, sublistss. rewrite (f1_var_lists fb HF1 f l wb rs HT Hf Hl Ers). cbn [cbind]. eexists. reflexivity.
+  - (* AtLeastKInARow *) exact (atleast_total fb HF1 HT _ _ _ _ fresh Hc).
+  - (* ExactlyK *)
+    cbn [constraint_f1] in Hc. rewrite !andb_true_iff in Hc. destruct Hc as [[[[Hf Hl] Hg] _] _].
+    apply Nat.ltb_lt in Hl. destruct (geom_ok_some fb wb Hg) as [rs Ers].
+    unfold apply_exactlyk. rewrite (f1_var_lists fb HF1 f l wb rs HT Hf Hl Ers). cbn [cbind]. eexists. reflexivity.
+  - (* ExactlyKInARow *) exact (exactrow_total fb HF1 HT _ _ _ _ fresh Hc).
   - (* Exclude *)
-    cbn [constraint_f1] in Hc. rewrite !andb_true_iff in Hc. destruct Hc as [Hf Hl]. apply Nat.ltb_lt in Hl.
-    unfold apply_exclude. rewrite (f1_var_lists_none fb HF1 f l Hf Hl). cbn [cbind]. eexists. reflexivity.
+    cbn [constraint_f1] in Hc. rewrite !andb_true_iff in Hc. destruct Hc as [[Hf Hl] _]. apply Nat.ltb_lt in Hl.
+    unfold apply_exclude. rewrite (f1_var_lists_none fb HF1 f l HT Hf Hl). cbn [cbind]. eexists. reflexivity.
   - (* Pin *)
-    cbn [constraint_f1] in Hc. rewrite !andb_true_iff in Hc. destruct Hc as [[[Hf Hl] Hg] Hs].
-    apply Nat.ltb_lt in Hl. apply Nat.eqb_eq in Hs. destruct (geom_ok_some fb wb Hg) as [rs Ers].
+    cbn [constraint_f1] in Hc. rewrite !andb_true_iff in Hc. destruct Hc as [[[[Hf Hcx] Hl] Hg] Hs].
+    apply Nat.ltb_lt in Hl. apply Nat.eqb_eq in Hs. apply negb_true_iff in Hcx. destruct (geom_ok_some fb wb Hg) as [rs Ers].
     unfold apply_pin. rewrite (f1_trial_numbers fb f index wb rs Hs Ers).
     destruct (flat_map _ rs) as [|p ps]; [eexists; reflexivity|].
     assert (Evars : forall pl, cmapM (fun t => if negb (applies_at fb f (t + 1)) then COk [[1%Z]; [(-1)%Z]]
                                                else v <~ get_variable fb (t + 1) f l ;; COk [[zn v]]) pl
                                = COk (map (fun t => [[zn (gvar fb t f l)]]) pl)).
     { induction pl as [|a pl IH]; [reflexivity|]. cbn [cmapM map].
-      rewrite (f1_applies fb HF1 f (a + 1) Hf). cbn [negb].
-      rewrite Nat.add_1_r, (f1_get_variable fb HF1 f l a Hf Hl). cbn [cbind]. rewrite IH. reflexivity. }
+      rewrite Nat.add_1_r. change (applies_at fb f (S a)) with (lappl fb f a). rewrite (lappl_simple fb HF1 f a Hf Hcx). cbn [negb].
+      rewrite (f1_get_variable fb HF1 f l a Hf Hl). cbn [cbind]. rewrite IH. reflexivity. }
     rewrite Evars. cbn [cbind]. eexists. reflexivity.
   - (* Sequential *) exact (sequential_total fb HF1 HT _ fresh Hc).
 Qed.
@@ -123,7 +130,7 @@ Qed.
 Theorem compile_total_f1 : exists b, compile fb = COk b.
 Proof.
   unfold compile. apply apply_all_total; [apply incl_refl|]. cbn [b_fresh].
-  unfold F1Kinds.GZ, GN. rewrite (f1_vps fb HF1). unfold zn. lia.
+  unfold F1Kinds.GZ. rewrite <- (f1_vps fb HF1). unfold zn. lia.
 Qed.
 
 End F1Total.
